@@ -90,7 +90,8 @@ Critical ==
              /\ Chk("C06.pure_criticality", <<E.case, "dp/dV V/p", l>>, FDiv(FMul(s.dp_dv, s.V), s.p), "0", "1", "0", "1e-5")
              /\ Chk("C06.pure_criticality", <<E.case, "d2p/dV2 V^2/p", l>>, FDiv(FMul(s.d2p_dv2, FMul(s.V, s.V)), s.p), "0", "1", "0", "1e-3")
              /\ \A k \in 1..Len(E.variants) :
-                  E.variants[k].ok => /\ Chk("C06.initial_temperature_independent", <<E.case, E.variants[k].f, "T", l>>, E.variants[k].T, s.T, "1e-6", FAbs(s.T), "0")
+                  E.variants[k].ok => /\ Chk("C12.critical_point_guess", <<E.case, E.variants[k].f, "T", l>>, E.variants[k].T, s.T, "1e-6", FAbs(s.T), "0")
+                                      /\ Chk("C06.initial_temperature_independent", <<E.case, E.variants[k].f, "T", l>>, E.variants[k].T, s.T, "1e-6", FAbs(s.T), "0")
                                       /\ Chk("C06.initial_temperature_independent", <<E.case, E.variants[k].f, "rho", l>>, E.variants[k].rho, s.rho, "1e-3", FAbs(s.rho), "0"))
        /\ (E.kind = "binary" =>
              LET lam == [k \in 1..Len(E.neighbours) |-> LamMin(E.neighbours[k])] IN
